@@ -25,6 +25,7 @@ THEOREMS = [
     "C08.copy_ok", "C08.copy_paths", "C08.copy_fresh_ids", "C08.copy_origin_untouched",
     "C08.source_untouched", "C08.t2t_copy", "C08.delete_paths",
     "C08.frame_all_flags_step", "C08.frame_all_flags", "C08.frame_all_flags_mem",
+    "C08.replace_frame_all_flags_step", "C08.replace_frame_all_flags_mem",
 ]
 PROOF_IMPORTS = ["BigtreeProofs.Properties.C08"]
 FLAGS = ["skippable", "overriding", "merge_children", "merge_leaves", "delete_children", "with_full_path"]
@@ -1024,7 +1025,9 @@ LEVEL_TEXT = ("Proof. Lean 4 theorems (C08.*) about a hand-written executable mo
               "(3) frame_all_flags(_step, _mem) - for EVERY flag combination (copy, skippable, overriding, merge_children, "
               "merge_leaves, delete_children, with_full_path), same-tree and tree-to-tree, every tree and every string (no "
               "hypothesis at all): the nodes that lie neither below the from-node nor below the existing destination keep their "
-              "identity, path, attributes and relative order (their entry list is a sublist of the result's). "
+              "identity, path, attributes and relative order (their entry list is a sublist of the result's); "
+              "replace_frame_all_flags(_step, _mem) - the same for replace_logic as a sub-multiset (the re-append loop permutes "
+              "siblings in between). "
               "Partial in this sense: each single-pair theorem fixes one kind of edit (the other merge/override flags off; merge and "
               "override theorems are for shift onto an existing destination whose subtree is disjoint from the from-subtree; "
               "replace for delete_children=False); the combinations not covered by a theorem (e.g. copy+merge, merge onto a missing "
